@@ -295,7 +295,7 @@ impl V {
         const EXPR_LIST: &[&str] = &[
             "format", "vec", "write", "writeln", "println", "eprintln", "print", "eprint", "panic", "assert",
             "assert_eq", "assert_ne", "debug_assert", "unreachable", "todo", "unimplemented", "syn_err",
-            "syn_err_spanned", "format_ident", "matches", "dbg",
+            "syn_err_spanned", "format_ident", "matches", "dbg", "format_args", "format_args_nl", "const_format_args",
         ];
         if EXPR_LIST.contains(&last.as_str()) {
             struct Args(Vec<syn::Expr>);
